@@ -19,30 +19,36 @@ CHECK_DEADLOCK FALSE
 SINV = "INVARIANTS Conservation HonestPayout HonestNotRobbed"
 
 
+def run_vector(scratch, binary, path, tag):
+    """Replays one recorded behaviour (driver, cfg, steps = labels of Settle.tla / SubSettle.tla actions) on real clients."""
+    import json
+    rp = json.load(open(path))
+    c = rp["cfg"]
+    if rp["driver"] == "settle":
+        cfg = CFG % dict(a0=c["A0"], b0=c["B0"], mv=3, cd=c["CD"], fs=c["FShift"], adv="TRUE" if c["Adversary"] else "FALSE", inv="")
+        mod, test = "Settle", "TestSettle"
+        env = dict(VERIF_A0=c["A0"], VERIF_B0=c["B0"], VERIF_CD=c["CD"], VERIF_FSHIFT=c["FShift"], VERIF_ADVERSARY="1" if c["Adversary"] else "0")
+    else:
+        nm = sum(1 for x in rp["steps"] if x.startswith(("PayS", "HoldS", "FinalizeS", "AdvRegisterEchoS")))
+        cfg = SCFG % dict(p0=c["P0"], mp=4 if len(rp["steps"]) > 6 else 3, ms=2 if nm > 1 else 1, cd=c["CD"],
+                          adv="TRUE" if c["Adversary"] else "FALSE", hon=c["Hon"], bal="TRUE" if c.get("Ballast") else "FALSE", inv="")
+        mod, test = "SubSettle", "TestSubSettle"
+        env = dict(VERIF_P0=c["P0"], VERIF_CD=c["CD"], VERIF_ADVERSARY="1" if c["Adversary"] else "0", VERIF_HON=c["Hon"],
+                   VERIF_BALLAST="1" if c.get("Ballast") else "0")
+    r = vlib.tlc(scratch, mod, cfg, name="Vector_%s" % tag, workers=1, extra=["-dump", "dot,actionlabels", "graph.dot"], timeout=3000)
+    if not r["ok"]:
+        raise vlib.Inconclusive("TLC failed on %s.tla (replay of a recorded behaviour)" % mod)
+    dot = os.path.join(r["dir"], "graph.dot")
+    d = vlib.run_driver(binary, test, dict(env, VERIF_DOT=dot, VERIF_REPLAY_STEPS=os.path.abspath(path)), scratch, "vector%s" % tag, timeout=1200)
+    os.remove(dot)
+    return d
+
+
 def known_replays(prop, scratch, binary, dr):
     """Every listed finding of the property is replayed from its committed vector, whatever the seed / tier samples: it is
     reported (KNOWN-FINDING) exactly as long as the real code still fails on it."""
-    import json
     for i, k in enumerate(f for f in vlib.load_known() if f["property"] == prop and f.get("replay")):
-        path = os.path.join(vlib.VERIF, k["replay"])
-        rp = json.load(open(path))
-        c = rp["cfg"]
-        if rp["driver"] == "settle":
-            cfg = CFG % dict(a0=c["A0"], b0=c["B0"], mv=3, cd=c["CD"], fs=c["FShift"], adv="TRUE" if c["Adversary"] else "FALSE", inv="")
-            mod, test = "Settle", "TestSettle"
-            env = dict(VERIF_A0=c["A0"], VERIF_B0=c["B0"], VERIF_CD=c["CD"], VERIF_FSHIFT=c["FShift"], VERIF_ADVERSARY="1" if c["Adversary"] else "0")
-        else:
-            cfg = SCFG % dict(p0=c["P0"], mp=3, ms=1, cd=c["CD"], adv="TRUE" if c["Adversary"] else "FALSE", hon=c["Hon"],
-                              bal="TRUE" if c.get("Ballast") else "FALSE", inv="")
-            mod, test = "SubSettle", "TestSubSettle"
-            env = dict(VERIF_P0=c["P0"], VERIF_CD=c["CD"], VERIF_ADVERSARY="1" if c["Adversary"] else "0", VERIF_HON=c["Hon"],
-                       VERIF_BALLAST="1" if c.get("Ballast") else "0")
-        r = vlib.tlc(scratch, mod, cfg, name="Known_%s%d" % (prop, i), workers=1, extra=["-dump", "dot,actionlabels", "graph.dot"], timeout=3000)
-        if not r["ok"]:
-            raise vlib.Inconclusive("TLC failed on %s.tla (known-finding replay)" % mod)
-        dot = os.path.join(r["dir"], "graph.dot")
-        d = vlib.run_driver(binary, test, dict(env, VERIF_DOT=dot, VERIF_REPLAY_STEPS=path), scratch, "known%d" % i, timeout=1200)
-        os.remove(dot)
+        d = run_vector(scratch, binary, os.path.join(vlib.VERIF, k["replay"]), "%s_%d" % (prop, i))
         d["counts"] = dict(known_finding_replays=1)
         dr.append(d)
 
@@ -199,6 +205,9 @@ def run(prop, tier, seed, scratch, t0):
 
 
 def replay(prop, path, scratch):
-    print("replay: settle vectors are Settle.tla paths; re-run ./check %s. vector:" % prop)
-    print(open(path).read()[:3000])
-    return 0
+    """Re-executes a recorded behaviour on real clients; exit 1 if the violation is reproduced."""
+    binary = vlib.build_harness(scratch, pkg="./cdrv", name="cdrv.test")
+    d = run_vector(scratch, binary, path, "replay")
+    for v in d["violations"]:
+        print("%s property=%s %s: %s" % ("REPRODUCED" if v.get("kind") == "monitor" else "deviation", v["property"], v["sig"], v["what"][:600]))
+    return 1 if any(v.get("kind") == "monitor" for v in d["violations"]) else 0
